@@ -54,6 +54,12 @@ def gen(seed, i, tier):
         o["RenormalizeCharge"] = 1              # a limiter does not conserve charge exactly: renormalised every step the end state is strictly stationary
     if i % 4 == 2:
         o["alpha1"] = r.choice([5e-4, -5e-4])   # alpha0/8 (alpha0 is left at its default 4e-3 in these runs): changes the drift by 6e-5 of itself over the bunch - the equilibrium is the same
+    # the longitudinal focusing given in its other forms: through the synchrotron frequency (i % 6 in 0, 2), with the sinusoidal RF model
+    # (i % 6 in 2, 4; at these bunch lengths k_RF*sigma is a few 1e-3, the well is the parabola to that accuracy), and both together
+    if i % 6 in (0, 2):
+        o["SynchrotronFrequency"] = float(r.choice([6000, 12000, 22000]))
+    if i % 6 in (2, 4):
+        o["LinearRF"] = False
     prog.sprinkle(core.Rng("c05nuisance", seed, i), o, cutoff_ok=True, padding_ok=(kind != "resistor"))      # options that must not matter to the equilibrium
     if i % 5 == 4:
         o["_steps_per_revolution"] = True           # step size given per revolution (overrides StepsPerTs, which is left at another value)
@@ -189,6 +195,10 @@ def run(ctx):
         ctx.case("c05:%s" % sorted(res["opts"].items()))
         ctx.ev("equilibria_judged")
         ctx.ev("equilibria." + res["kind"])
+        if "SynchrotronFrequency" in res["opts"]:
+            ctx.ev("equilibria_with_the_synchrotron_frequency_given")
+        if res["opts"].get("LinearRF") is False:
+            ctx.ev("equilibria_with_sinusoidal_rf")
         for k, v in res["res"].items():
             ctx.residual(k, v, 1.0)
         for key, what, det in res["viol"]:
